@@ -106,10 +106,17 @@ def lit_py(l):
         return [float(x) for x in v]
     if k == "l2":
         return [[float(x) for x in r] for r in v]
+    if k == "np":                                   # ("np", value, dtype): a NumPy scalar of that dtype
+        return getattr(np, l[2])(v)
+    if k == "pybool":
+        return bool(v)
     raise ValueError(k)
 
 
-LAYOUTS = ["C", "F", "T", "neg", "strided", "int"]
+LIT_KINDS = ("r", "int", "float", "npf", "npi", "a0", "a1", "a2", "aN", "l1", "l2", "np", "pybool")
+# float16 / float32 constants must not leak their precision into evaluate() (finding F32, fixed in /repo): always included
+NARROW_FLOATS = True
+LAYOUTS = ["C", "F", "T", "neg", "strided", "int", "uint8", "int8", "int32", "uint64", "bool"] + (["float32", "float16"] if NARROW_FLOATS else [])
 
 
 def make_arr(data, layout):
@@ -129,6 +136,11 @@ def make_arr(data, layout):
         return big[::2]                                          # non-contiguous slice
     if layout == "int":
         return a.astype(np.int64) if np.all(a == np.round(a)) else a
+    if layout in ("uint8", "int8", "int32", "uint64", "float32", "float16", "bool"):
+        # another element type, when every value is representable in it (otherwise the float64 array)
+        with np.errstate(all="ignore"):
+            b = a.astype(getattr(np, layout if layout != "bool" else "bool_"))
+            return b if np.array_equal(b.astype(float), a) else a
     raise ValueError(layout)
 
 
@@ -138,12 +150,20 @@ def lit_sexp(l):
         return f"(r {l[1]})"
     if k in ("int", "float", "npf", "npi", "a0"):
         return f"({k} {rat(l[1])})"
+    if k in ("a1", "a2") and len(l) > 2 and l[2] == "bool" and lit_py(l).dtype == bool:
+        raise Unsupported("bool array operand")           # Constant(np.bool_): no S-expression; values are still checked
     if k in ("a1", "l1"):
         return f"({k} (" + " ".join(rat(x) for x in l[1]) + "))"
     if k in ("a2", "l2"):
         return f"({k} (" + " ".join("(" + " ".join(rat(x) for x in r) + ")" for r in l[1]) + "))"
     if k == "aN":
         return f"(aN {l[1]} {l[2]})"
+    if k == "np" and l[2] == "bool_":
+        raise Unsupported("NumPy bool operand")
+    if k == "np":
+        return f"(npf {rat(float(lit_py(l)))})" if l[2] == "float64" else f"(npi {rat(float(lit_py(l)))})"
+    if k == "pybool":
+        raise Unsupported("Python bool operand")      # Constant(True): no S-expression; values are still checked
     raise ValueError(k)
 
 
@@ -280,6 +300,9 @@ def arith_py(op, a, b):
     raise ValueError(op)
 
 
+ALIAS_LOG = []
+
+
 def py_step(regs, st):
     """execute one step on real optyx; returns the register value (object | PyErr)"""
     import optyx
@@ -290,11 +313,14 @@ def py_step(regs, st):
     def arg(l):
         if l[0] == "r":
             return regs[l[1]]
-        return lit_py(l)
+        v = lit_py(l)
+        if isinstance(v, np.ndarray):
+            ALIAS_LOG.append((v, v.copy(), v.dtype, v.strides))   # optyx must leave the caller's array alone
+        return v
 
     op = st[0]
     args = [arg(x) for x in st[1:] if isinstance(x, tuple) and x and x[0] in
-            ("r", "int", "float", "npf", "npi", "a0", "a1", "a2", "aN", "l1", "l2")] if op not in ("vec", "mat") else []
+            LIT_KINDS] if op not in ("vec", "mat") else []
     if any(isinstance(a, PyErr) for a in args):
         return DEP
     try:
@@ -400,8 +426,7 @@ def np_step(nregs, st, values):
             return NPERR
         return np.array([[values[f"{st[1]}[{min(i, j)},{max(i, j)}]" if sym else f"{st[1]}[{i},{j}]"]
                           for j in range(c)] for i in range(r)], dtype=float)
-    args = [arg(x) for x in st[1:] if isinstance(x, tuple) and x and x[0] in
-            ("r", "int", "float", "npf", "npi", "a0", "a1", "a2", "aN", "l1", "l2")]
+    args = [arg(x) for x in st[1:] if isinstance(x, tuple) and x and x[0] in LIT_KINDS]
     if any(a is NPERR for a in args):
         return NPERR
     if any(a is NONUM for a in args) and op != "nth":
@@ -569,11 +594,22 @@ def rand_slice(rng, n):
 class RecipeBuilder:
     """grows a recipe while executing it on the real API (so that operand kinds/shapes are known)"""
 
-    def __init__(self, rng, tag=""):
+    def __init__(self, rng, tag="", scale=1.0):
         self.rng = rng
         self.steps = []
         self.regs = []
         self.tag = tag
+        self.scale = scale          # one power-of-two factor on every literal array of the recipe (keeps all sums exact)
+
+    def arr(self, n, div=False):
+        return [x * self.scale for x in rand_arr(self.rng, n, div)]
+
+    def scalars(self):
+        """registers holding a scalar expression the syntax can express (reductions, elements, wrapped ones)"""
+        from optyx.core.expressions import Expression
+        from optyx.core.vectors import ElementwisePower, ElementwiseUnary
+        return [i for i, o in enumerate(self.regs)
+                if isinstance(o, Expression) and not isinstance(o, (ElementwisePower, ElementwiseUnary)) and show_reg(o).startswith("(ok")]
 
     def add(self, st):
         self.steps.append(st)
@@ -600,13 +636,13 @@ class RecipeBuilder:
                                ("npf", rng.choice([2.0, 0.5])), ("npi", 2), ("a0", 2.0)])
         if c < 0.8:
             if rng.random() < 0.5:
-                return ("a1", rand_arr(rng, m, div=True), rng.choice(LAYOUTS))
-            return ("l1", rand_arr(rng, m, div=True))
+                return ("a1", self.arr(m, div=True), rng.choice(LAYOUTS))
+            return ("l1", self.arr(m, div=True))
         if c < 0.9:
-            return ("a2", [rand_arr(rng, m, div=True)])
+            return ("a2", [self.arr(m, div=True)])
         if same:
             return ("r", rng.choice(same))
-        return ("a1", rand_arr(rng, m, div=True))
+        return ("a1", self.arr(m, div=True))
 
     def operand_for_mat(self, shape, bad):
         rng = self.rng
@@ -621,9 +657,9 @@ class RecipeBuilder:
             return rng.choice([("int", small_int(rng)), ("float", 2.0), ("npf", 2.0), ("npi", 2), ("a0", 2.0)])
         if ch < 0.9:
             if rng.random() < 0.66:
-                return ("a2", [rand_arr(rng, c, div=True) for _ in range(r)], rng.choice(LAYOUTS))
-            return ("l2", [rand_arr(rng, c, div=True) for _ in range(r)])
-        return ("a1", rand_arr(rng, c, div=True))
+                return ("a2", [self.arr(c, div=True) for _ in range(r)], rng.choice(LAYOUTS))
+            return ("l2", [self.arr(c, div=True) for _ in range(r)])
+        return ("a1", self.arr(c, div=True))
 
     def grow(self):
         rng = self.rng
@@ -635,6 +671,9 @@ class RecipeBuilder:
         ep = self.idx(("ElementwisePower", "ElementwiseUnary"))
         bad = rng.random() < 0.12
         choices = []
+        scal = self.scalars()
+        if scal:
+            choices += ["swrap", "swrap", "swrap"]
         if vvs:
             choices += ["vgetint", "vslice", "vslice", "vpow", "vnorm", "vfn", "diagmat"]
         if vecs:
@@ -650,6 +689,22 @@ class RecipeBuilder:
         if ep:
             choices += ["epsum", "epsum"]
         ch = rng.choice(choices)
+        if ch == "swrap":
+            # wrappers (±const, k·, /k, neg, const − ·, square) around a scalar node, typically a reduction at the root
+            i = rng.choice(scal)
+            k = rng.choice([("int", 2), ("float", 0.5), ("int", -1), ("float", 4.0), ("npf", 2.0), ("int", 0), ("float", -2.0)])
+            form = rng.choice(["+", "-", "*", "/", "r+", "r-", "r*", "neg", "sq", "add2"])
+            if form == "/" and k[1] == 0:
+                k = ("int", 2)
+            if form == "neg":
+                return self.add(("neg", ("r", i)))
+            if form == "sq":
+                return self.add(("arith", "**", ("r", i), ("int", 2)))
+            if form == "add2":
+                return self.add(("arith", rng.choice(["+", "-", "*"]), ("r", i), ("r", rng.choice(scal))))
+            if form.startswith("r"):
+                return self.add(("arith", form[1], k, ("r", i)))
+            return self.add(("arith", form, ("r", i), k))
         if ch == "vgetint":
             i = rng.choice(vvs)
             n = self.size(i)
@@ -662,7 +717,8 @@ class RecipeBuilder:
             i = rng.choice(vvs)
             return self.add(("getitem", ("r", i), rand_slice(rng, self.size(i))))
         if ch == "vpow":
-            return self.add(("arith", "**", ("r", rng.choice(vvs)), rng.choice([("int", 2), ("float", 2.0), ("int", 3), ("a0", 2.0)])))
+            return self.add(("arith", "**", ("r", rng.choice(vvs)), rng.choice([("int", 2), ("float", 2.0), ("int", 3), ("a0", 2.0), ("int", 0),
+                                                                                  ("int", 1), ("int", -1), ("float", -2.0), ("np", 2, "uint8")])))
         if ch == "vnorm":
             return self.add(("norm", ("r", rng.choice(vecs)), rng.choice([1, 2, 2, 3])))
         if ch == "vfn":
@@ -677,7 +733,7 @@ class RecipeBuilder:
             op = rng.choice(["+", "-", "*", "/", "**"] if ch == "varith" else ["+", "-", "*", "/"])
             other = self.operand_for_vec(self.size(i), bad)
             if op == "**":
-                other = rng.choice([("int", 2), ("int", 3), ("float", 2.0)])
+                other = rng.choice([("int", 2), ("int", 3), ("float", 2.0), ("int", 0), ("int", 1), ("int", -1)])
             # exactness: a divisor is a literal or a plain variable container (values are signed powers of two);
             # dividing by a computed expression would give non-dyadic values whose sums depend on the summation order
             if op == "/" and ch == "varith" and other[0] == "r" and kind_of(self.regs[other[1]]) != "VectorVariable":
@@ -687,7 +743,7 @@ class RecipeBuilder:
             if ch == "varith":
                 return self.add(("arith", op, ("r", i), other))
             if other[0] == "r":
-                other = ("a1", rand_arr(rng, self.size(i), div=True))
+                other = ("a1", self.arr(self.size(i), div=True))
             return self.add(("arith", op, other, ("r", i)))
         if ch == "vneg":
             return self.add(("neg", ("r", rng.choice(vecs))))
@@ -716,29 +772,29 @@ class RecipeBuilder:
             i = rng.choice(vecs)
             other = self.operand_for_vec(self.size(i), bad)
             if other[0] in ("int", "float", "npf", "npi", "a0") and rng.random() < 0.7:
-                other = ("a1", rand_arr(rng, self.size(i)))
+                other = ("a1", self.arr(self.size(i)))
             return self.add(("matmul", ("r", i), other))
         if ch == "vrmatmul":
             i = rng.choice(vecs)
             n = self.size(i) if not bad else rng.choice([k for k in range(1, 7) if k != self.size(i)])
             if rng.random() < 0.5:
-                other = rng.choice([("a1", rand_arr(rng, n), rng.choice(LAYOUTS)), ("l1", rand_arr(rng, n))])
+                other = rng.choice([("a1", self.arr(n), rng.choice(LAYOUTS)), ("l1", self.arr(n))])
             else:
-                rows = [rand_arr(rng, n) for _ in range(rng.randint(1, 4))]
+                rows = [self.arr(n) for _ in range(rng.randint(1, 4))]
                 other = rng.choice([("a2", rows, rng.choice(LAYOUTS)), ("l2", rows)])
             return self.add(("matmul", other, ("r", i)))
         if ch == "qf":
             i = rng.choice(vecs)
             n = self.size(i) if not bad else self.size(i) + 1
-            return self.add(("qf", ("r", i), ("a2", [rand_arr(rng, n) for _ in range(n if rng.random() < 0.9 else n + 1)])))
+            return self.add(("qf", ("r", i), ("a2", [self.arr(n) for _ in range(n if rng.random() < 0.9 else n + 1)])))
         if ch == "lincomb":
             i = rng.choice(vecs)
             n = self.size(i) if not bad else self.size(i) + 1
-            return self.add(("lincomb", ("a1", rand_arr(rng, n)), ("r", i)))
+            return self.add(("lincomb", ("a1", self.arr(n)), ("r", i)))
         if ch == "mvp":
             i = rng.choice(vecs)
             n = self.size(i) if not bad else self.size(i) + 1
-            return self.add(("mvp", ("a2", [rand_arr(rng, n) for _ in range(rng.randint(1, 4))]), ("r", i)))
+            return self.add(("mvp", ("a2", [self.arr(n) for _ in range(rng.randint(1, 4))]), ("r", i)))
         if ch in ("marith", "mrarith"):
             i = rng.choice(mats)
             op = rng.choice(["+", "-", "*", "/", "**"] if ch == "marith" else ["+", "-", "*", "/"])
@@ -753,7 +809,7 @@ class RecipeBuilder:
                 return self.add(("arith", op, ("r", i), other))
             if other[0] == "r":
                 r_, c_ = self.regs[i].shape
-                other = ("a2", [rand_arr(rng, c_, div=True) for _ in range(r_)])
+                other = ("a2", [self.arr(c_, div=True) for _ in range(r_)])
             return self.add(("arith", op, other, ("r", i)))
         if ch == "mneg":
             return self.add(("neg", ("r", rng.choice(mats))))
@@ -798,20 +854,26 @@ class RecipeBuilder:
         raise ValueError(ch)
 
 
+SCALES = [2.0 ** -1000, 2.0 ** -40, 2.0 ** -30, 2.0 ** -27, 2.0 ** -26, 2.0 ** -23, 2.0 ** 27, 2.0 ** 54, 2.0 ** 60]
+NAME_SETS = [("x", "y", "A", "S", "B"), ("x", "y", "A", "S", "B"), ("w2", "w10", "a1b", "a1", "w02"), ("x", "x1", "M2", "M10", "M"),
+             ("x", "x", "A", "A", "A2")]
+
+
 def random_recipe(rng, length):
-    b = RecipeBuilder(rng)
+    b = RecipeBuilder(rng, scale=rng.choice(SCALES) if rng.random() < 0.15 else 1.0)
+    X, Y, A, S, B = rng.choice(NAME_SETS)          # the last set builds same-named clones (distinct objects)
     n = rng.randint(1, 6)
-    b.add(("vec", "x", n))
-    b.add(("vec", "y", n if rng.random() < 0.7 else rng.randint(1, 6)))
+    b.add(("vec", X, n))
+    b.add(("vec", Y, n if rng.random() < 0.7 else rng.randint(1, 6)))
     r, c = rng.randint(1, 4), rng.randint(1, 4)
     if rng.random() < 0.5:
         c = n
-    b.add(("mat", "A", r, c, False))
+    b.add(("mat", A, r, c, False))
     if rng.random() < 0.6:
         k = rng.choice([n, rng.randint(1, 4)])
-        b.add(("mat", "S", k, k, True))
+        b.add(("mat", S, k, k, True))
     if rng.random() < 0.3:
-        b.add(("mat", "B", r, c, False))
+        b.add(("mat", B, r, c, False))
     guard = 0
     while len(b.steps) < length and guard < 4 * length:
         guard += 1
@@ -900,6 +962,86 @@ def cell_cover():
                                                     ("qf", v, ("a2", sq, lay))]))
             out.append((f"layout:{lay}", base + [("matmul", ("a2", [[float((3 * i + j) % 5 - 2) for j in range(n)] for i in range(n)], lay),
                                                           ("r", 0)), ("dot", ("r", 1), ("r", len(base)))]))
+    # element types of constant arrays / matrices (values representable in the dtype), every operator in both positions
+    n, r, c = 3, 2, 3
+    base = base_recipe(n, r, c)
+    for lay in LAYOUTS[5:]:
+        b_ = lay == "bool"
+        a1, d1 = ([1.0, 0.0, 1.0], [1.0, 1.0, 1.0]) if b_ else ([1.0, 2.0, 0.0], [1.0, 2.0, 4.0])
+        a2 = [[1.0, 0.0, 1.0], [0.0, 1.0, 1.0]] if b_ else [[1.0, 2.0, 0.0], [4.0, 0.0, 2.0]]
+        d2 = [[1.0] * 3] * 2 if b_ else [[1.0, 2.0, 4.0], [4.0, 2.0, 1.0]]
+        sq = [[1.0, 0.0, 1.0], [0.0, 1.0, 0.0], [1.0, 1.0, 0.0]] if b_ else [[1.0, 2.0, 0.0], [0.0, 4.0, 1.0], [2.0, 0.0, 2.0]]
+        for op in ("+", "-", "*", "/"):
+            for vk in ("vv", "ve", "mvp"):
+                v = ("r", OPERANDS_OPTYX[vk])
+                out.append((f"dtype:{lay}", base + [("arith", op, v, ("a1", d1 if op == "/" else a1, lay)), ("sum", ("r", len(base)))]))
+                out.append((f"dtype:{lay}", base + [("arith", op, ("a1", a1, lay), v), ("sum", ("r", len(base)))]))
+            for mk in ("mv", "me"):
+                m = ("r", OPERANDS_OPTYX[mk])
+                out.append((f"dtype:{lay}", base + [("arith", op, m, ("a2", d2 if op == "/" else a2, lay)), ("sum", ("r", len(base)))]))
+                out.append((f"dtype:{lay}", base + [("arith", op, ("a2", a2, lay), m), ("sum", ("r", len(base)))]))
+        for vk in ("vv", "ve", "mvp"):
+            v = ("r", OPERANDS_OPTYX[vk])
+            k0 = len(base)
+            out.append((f"dtype:{lay}", base + [("lincomb", ("a1", a1, lay), v), ("matmul", ("a1", a1, lay), v), ("matmul", v, ("a1", a1, lay)),
+                                               ("mvp", ("a2", sq, lay), v), ("sum", ("r", k0 + 3)), ("dot", ("r", 1), ("r", k0 + 3)),
+                                               ("qf", v, ("a2", sq, lay)), ("arith", "*", ("r", k0 + 3), ("int", 2))]))
+        out.append((f"dtype:{lay}", base + [("matmul", ("a2", sq, lay), ("r", 0)), ("dot", ("r", 0), ("r", len(base))),
+                                           ("getitem", ("r", len(base)), ("i", -1))]))
+    # magnitudes of stored numbers: one power-of-two scale (1e-301 … 1e18, and exact zero) on a whole coefficient array
+    for sc in SCALES + [0.0, -(2.0 ** -27), -(2.0 ** 54)]:
+        a1 = [sc, -2 * sc, 4 * sc]
+        z1 = [sc, 0.0, -sc]
+        a2 = [[sc, 2 * sc, -sc], [4 * sc, -sc, 2 * sc]]
+        sq = [[sc, -2 * sc, 0.0], [0.0, 4 * sc, sc], [-sc, 0.0, 2 * sc]]
+        for vk in ("vv", "ve"):
+            v = ("r", OPERANDS_OPTYX[vk])
+            k0 = len(base)
+            steps = base + [("lincomb", ("a1", a1), v), ("lincomb", ("a1", z1), v), ("mvp", ("a2", sq), v), ("sum", ("r", k0 + 2)),
+                            ("dot", ("r", 1), ("r", k0 + 2)), ("qf", v, ("a2", sq)), ("arith", "*", v, ("a1", a1)), ("arith", "*", ("a1", z1), v),
+                            ("arith", "+", v, ("a1", a1)), ("arith", "-", ("a1", a1), v), ("matmul", ("a1", a1), v), ("sum", ("r", k0 + 6)),
+                            ("arith", "*", v, ("float", sc)), ("arith", "*", ("float", sc), v), ("sum", ("r", k0 + 12))]
+            if sc != 0.0:
+                steps += [("arith", "/", v, ("a1", a1)), ("arith", "/", ("a1", a1), ("r", 0)), ("arith", "/", v, ("float", sc))]
+            out.append(("magnitude", steps))
+        for mk in ("mv", "me"):
+            m = ("r", OPERANDS_OPTYX[mk])
+            k0 = len(base)
+            steps = base + [("arith", "*", m, ("a2", a2)), ("sum", ("r", k0)), ("arith", "+", ("a2", a2), m), ("arith", "-", ("a2", a2), m),
+                            ("arith", "*", m, ("float", sc)), ("sum", ("r", k0 + 4))]
+            if sc != 0.0:
+                steps += [("arith", "/", m, ("a2", a2)), ("arith", "/", ("a2", a2), ("r", 5))]
+            out.append(("magnitude", steps))
+    # numeric types of scalar operands, both positions
+    for lit in (("np", 2, "uint8"), ("np", 2, "int8"), ("np", 2, "int32"), ("np", 2, "uint64"), ("np", 2, "int64"),
+                ("np", 255, "uint8"), ("np", -128, "int8"), ("np", 2.0, "float64"),
+                *((("np", 2.0, "float16"), ("np", 0.5, "float32")) if NARROW_FLOATS else ()), ("np", True, "bool_"), ("pybool", True), ("int", 0), ("int", 1),
+                ("float", 1e-300), ("float", 2.0 ** 60), ("a0", 2.0)):
+        for ok in ("vv", "ve", "mvp", "mv", "me", "e"):
+            o = ("r", OPERANDS_OPTYX[ok])
+            for op in ("+", "-", "*", "/", "**"):
+                if op == "/" and lit[1] == 0:
+                    continue
+                out.append((f"scalar-type:{lit[0]}:{lit[-1]}", base + [("arith", op, o, lit)]))
+                out.append((f"scalar-type:{lit[0]}:{lit[-1]}", base + [("arith", op, lit, o)]))
+    # same-named clones: distinct objects, equal names
+    q3 = ("a2", [[1.0, 2.0, 0.0], [0.0, -1.0, 4.0], [2.0, 0.0, 1.0]])
+    out.append(("clones", [("vec", "x", 3), ("vec", "x", 3), ("dot", ("r", 0), ("r", 1)), ("mvp", q3, ("r", 1)), ("dot", ("r", 0), ("r", 3)),
+                           ("mvp", q3, ("r", 0)), ("dot", ("r", 0), ("r", 5)), ("arith", "+", ("r", 0), ("r", 1)), ("sum", ("r", 7)),
+                           ("arith", "-", ("r", 0), ("r", 1)), ("mat", "x", 2, 3, False), ("matmul", ("r", 10), ("r", 1)),
+                           ("mat", "S", 3, 3, True), ("mat", "S", 3, 3, False), ("arith", "-", ("r", 12), ("r", 13)), ("sum", ("r", 14))]))
+    # wrappers (±const, k·, /k, neg, const − ·, squares) around every reduction node
+    reds = [("sum", ("r", 0)), ("sum", ("r", 3)), ("sum", ("r", 4)), ("dot", ("r", 0), ("r", 1)), ("dot", ("r", 3), ("r", 4)),
+            ("lincomb", ("a1", [1.0, -2.0, 4.0]), ("r", 0)), ("qf", ("r", 1), q3), ("norm", ("r", 0), 2), ("norm", ("r", 3), 1),
+            ("sum", ("r", 5)), ("sum", ("r", 7)), ("sum", ("r", 8)), ("frob", ("r", 5)), ("frob", ("r", 8)), ("trace", ("r", 8)),
+            ("sum", ("r", 10)), ("sum", ("r", 11))]
+    for red in reds:
+        k0 = len(base)
+        for w in ([("arith", "*", ("int", 2), ("r", k0))], [("arith", "*", ("r", k0), ("float", 0.5))], [("arith", "+", ("r", k0), ("int", 1))],
+                  [("arith", "-", ("int", 3), ("r", k0))], [("arith", "/", ("r", k0), ("int", 4))], [("neg", ("r", k0))],
+                  [("arith", "**", ("r", k0), ("int", 2))], [("arith", "-", ("r", k0), ("float", 0.5)), ("arith", "*", ("int", -2), ("r", k0 + 1))],
+                  [("neg", ("r", k0)), ("arith", "+", ("r", k0 + 1), ("r", k0))], [("arith", "*", ("r", k0), ("int", 0))]):
+            out.append(("wrap", base + [red] + w))
     # u.dot(Q @ v) for every pair of equally long views (the QuadraticForm rewrite must need identical elements)
     for n in (3, 4):
         pre = [("vec", "x", 2 * n), ("mat", "A", n, n, False), ("T", ("r", 1)), ("vec", "y", n)]
@@ -996,8 +1138,8 @@ def execute(steps):
     return regs
 
 
-def values_for(regs, rng):
-    """integer values for every variable occurring in any register"""
+def values_for(regs, rng, vscale=1.0):
+    """exactly representable values for every variable occurring in any register"""
     from optyx.core import vectors as V
     from optyx.core import matrices as M
 
@@ -1013,14 +1155,55 @@ def values_for(regs, rng):
     vals = {}
     for k in sorted(names):
         # signed powers of two: every + - * / of the recipes is then exact in binary floating point
-        vals[k] = 0.0 if k.startswith("_diag_") else float(rng.choice([1, 2, -1, -2, 4, -4, 8, 0.5, -0.5, -8]))
+        vals[k] = 0.0 if k.startswith("_diag_") else float(rng.choice([1, 2, -1, -2, 4, -4, 8, 0.5, -0.5, -8])) * vscale
     return vals
 
 
-def oracle_check(steps, regs, rng, rep):
-    """NumPy interpretation vs real evaluate; returns a list of failure dicts"""
+def natural_key(name):
+    parts, cur, dig = [], "", False
+    for ch in name:
+        d = "0" <= ch <= "9"
+        if d != dig:
+            parts.append((1, int(cur)) if dig else (0, cur))
+            cur, dig = "", d
+        cur += ch
+    parts.append((1, int(cur)) if dig else (0, cur))
+    return (parts, name)
+
+
+def compiled_channel(o, values):
+    """the same quantity through compile_expression (scalar expressions; first / last element of a vector or matrix
+    expression); returns [(label, value)] — an exception is the caller's failure"""
+    from optyx.core.expressions import Expression, get_all_variables
+    from optyx.core.compiler import compile_expression
+    from optyx.core import vectors as V
+    from optyx.core import matrices as M
+
+    targets = []
+    if isinstance(o, M.MatrixVectorProduct) or isinstance(o, V.VectorExpression):
+        targets = [((0,), o._expressions[0]), ((len(o._expressions) - 1,), o._expressions[-1])]
+    elif isinstance(o, M.MatrixExpression):
+        targets = [((0, 0), o._expressions[0][0]), ((o.rows - 1, o.cols - 1), o._expressions[-1][-1])]
+    elif isinstance(o, Expression) and not isinstance(o, (V.ElementwisePower, V.ElementwiseUnary)):
+        targets = [((), o)]
+    out = []
+    for idx, e in targets:
+        try:
+            Ser(with_ids=False).expr(e)
+        except (Unsupported, TypeError, ValueError):
+            continue                                        # array-valued / container-wrapping nodes: known findings
+        vs = sorted(get_all_variables(e), key=lambda v: natural_key(v.name))
+        f = compile_expression(e, vs)
+        x = np.array([values[v.name] for v in vs], dtype=float)
+        out.append((idx, np.asarray(f(x), dtype=float)))
+    return out
+
+
+
+def oracle_check(steps, regs, rng, rep, vscale=1.0, compiled_from=0):
+    """NumPy interpretation vs real evaluate vs compiled value; returns a list of failure dicts"""
     fails = []
-    values = values_for(regs, rng)
+    values = values_for(regs, rng, vscale)
     nregs = []
     for i, st in enumerate(steps):
         nv = np_step(nregs, st, values)
@@ -1062,8 +1245,41 @@ def oracle_check(steps, regs, rng, rep):
                 f["kind"] = kk
             fails.append(f)
             nregs[i] = NONUM
+            continue
+        if kk or i < compiled_from:
+            continue
+        # second channel: the compiled callable of the same expression, and a second evaluate of the same object
+        try:
+            with warnings.catch_warnings(), np.errstate(all="ignore"):
+                warnings.simplefilter("ignore")
+                comp = compiled_channel(o, values)
+                rv2 = real_value(o, values)
+        except Exception as ex:  # noqa: BLE001
+            fails.append({"what": "compile_expression / the compiled callable raised at a finite point",
+                          "error": f"{type(ex).__name__}: {ex}"[:160], "steps": repr(steps[:i + 1]), "step": i, "values": values})
+            continue
+        if not same_value(rv2, rv):
+            fails.append({"what": "evaluating the same object twice gives two values", "steps": repr(steps[:i + 1]), "step": i, "values": values})
+        for idx, cv in comp:
+            want = np.asarray(nv, dtype=float)[idx] if idx else np.asarray(nv, dtype=float)
+            rep.histogram["compiled-channel"] = rep.histogram.get("compiled-channel", 0) + 1
+            if not same_value(cv, want):
+                fails.append({"what": "compiled value differs from the NumPy interpretation", "steps": repr(steps[:i + 1]), "step": i,
+                              "values": values, "element": list(idx), "got": repr(cv)[:120], "want": repr(want)[:120]})
+                break
     rep.histogram["oracle_registers"] = rep.histogram.get("oracle_registers", 0) + len(steps)
     return fails
+
+
+def alias_failures(steps):
+    """arrays handed to optyx must be bit-identical afterwards (optyx may keep references, never write)"""
+    out = []
+    for arr, copy, dt, strides in ALIAS_LOG:
+        if arr.dtype != dt or arr.strides != strides or not np.array_equal(arr, copy, equal_nan=True):
+            out.append({"what": "a user-supplied array was modified by the API", "steps": repr(steps), "before": repr(copy)[:120],
+                        "after": repr(arr)[:120]})
+    ALIAS_LOG.clear()
+    return out
 
 
 def slice_cases():
@@ -1111,7 +1327,10 @@ def run(ctx) -> core.Report:
     thorough = ctx["tier"] == "thorough" or ctx["escalate"]
     rep = core.Report(rule="cell cover (every operand-kind pair for + - * / ** @ dot, constructors with every shape relation, every "
                            "int key and a grid of slices, the four matrix key shapes, views of symmetric / transposed matrices, the "
-                           "dot->QuadraticForm rewrite cells) + seeded random recipe programs over sizes 1..6; non-trivial = distinct "
+                           "dot->QuadraticForm rewrite cells, constant arrays in every memory layout and element type, coefficient magnitudes from "
+                           "1e-301 to 1e18 and exact zeros, scalar operands of every numeric type, same-named clones, wrappers around every "
+                           "reduction) + seeded random recipe programs over sizes 1..6 (names with digits, clones, literal scales, scaled "
+                           "points); every register: evaluate (twice) vs NumPy vs the compiled callable; non-trivial = distinct "
                            "recipes whose last register is a built object that evaluates to a non-constant value")
     recipes = [(tag, steps) for tag, steps in cell_cover()]
     n_rand = 12000 if thorough else 1500
@@ -1119,14 +1338,23 @@ def run(ctx) -> core.Report:
         b = random_recipe(rng, rng.randint(6, 16))
         recipes.append(("random", b.steps))
 
-    lines = ["recipe (" + " ".join(step_sexp(s) for s in steps) + ")" for _, steps in recipes]
+    lines, has_model = [], []
+    for _, steps in recipes:
+        try:
+            lines.append("recipe (" + " ".join(step_sexp(s) for s in steps) + ")")
+            has_model.append(True)
+        except Unsupported:
+            lines.append("recipe ()")          # an operand the syntax cannot express (Python bool): values only
+            has_model.append(False)
     n_rec = len(lines)
+    rep.mismatch_cases = []
     sl = list(slice_cases())
     lines += [f"slice {n} " + " ".join("None" if x is None else str(x) for x in (a, b, s)) for n, a, b, s in sl]
     outs = run_lean_unit(lines)
     rep.evaluations = len(lines)
 
-    for (tag, steps), model in zip(recipes, outs[:n_rec]):
+    for (tag, steps), model, hm in zip(recipes, outs[:n_rec], has_model):
+        ALIAS_LOG.clear()
         regs = execute(steps)
         impl = "(" + " ".join(show_reg(o) for o in regs) + ")"
         key = tag.split(":")[0]
@@ -1134,11 +1362,16 @@ def run(ctx) -> core.Report:
         for o in regs:
             k = "reg:" + (("err:" + o.cls) if isinstance(o, PyErr) else kind_of(o))
             rep.histogram[k] = rep.histogram.get(k, 0) + 1
-        if impl != model:
-            # locate the first differing register for the report
+        if not hm:
+            rep.skipped["no-model-line (bool operand)"] = rep.skipped.get("no-model-line (bool operand)", 0) + 1
+        elif impl != model:
+            rep.mismatch_cases.append((tag, steps))
             rep.corr_mismatches.append({"tag": tag, "steps": repr(steps), "impl": impl[-600:], "model": model[-600:],
                                         "impl_full": impl, "model_full": model, "steps_list": [repr(s) for s in steps]})
-        fails = oracle_check(steps, regs, rng, rep)
+        vscale = rng.choice([2.0 ** -100, 2.0 ** 30]) if tag == "random" and rng.random() < 0.1 else 1.0
+        fails = oracle_check(steps, regs, rng, rep, vscale=vscale,
+                             compiled_from=0 if tag in ("random", "magnitude", "clones") else max(0, len(steps) - 3))
+        fails += alias_failures(steps)
         rep.oracle_failures.extend(fails)
         last = regs[-1]
         if not isinstance(last, PyErr):
@@ -1165,6 +1398,13 @@ def run(ctx) -> core.Report:
 def search(ctx, rep):
     rng = core.Rng(ctx["seed"] + 104729)
     dummy = core.Report()
+    # first: the recipes whose structure differs from the model, judged by value at several assignments
+    for tag, steps in getattr(rep, "mismatch_cases", [])[:600]:
+        regs = execute(steps)
+        for vs in (1.0, 1.0, 1.0, 2.0 ** -100, 2.0 ** 30):
+            fails = [f for f in oracle_check(steps, regs, rng, dummy, vscale=vs) if "kind" not in f]
+            if fails:
+                return fails[0]
     for i in range(4000):
         b = random_recipe(rng, rng.randint(6, 16))
         fails = [f for f in oracle_check(b.steps, b.regs, rng, dummy) if "kind" not in f]
